@@ -84,9 +84,7 @@ def run(ctx):
     nat = specs if ctx.tier == "thorough" else depth1()
     cov["reference_vs_gcc_clang_comparisons"] = native.validate_space(ctx, nat, budget, prog.Env(drive.get_compiler()))
     # acceptance: every program of this alphabet is within the supported dialect
-    for spec, r in zip(specs, results):
-        if r["status"] == "rejected":
-            ctx.report({"program": r["text"], "rejected_with": r["exc"], "msg": r["msg"]}, deviations.rejection_finding(r), what="supported construct rejected: %s (%s)" % (r["text"], r["exc"]))
+    cov.update(vcheck.check_rejections(ctx, specs, results, "c02"))
     for spec, r in zip(specs[:3] + specs[-2:], results[:3] + results[-2:]):
         ctx.sample({"program": r["text"], "status": r["status"], "states": r.get("n_states"), "explained_by": r.get("explained_by")})
     static_bad = sum(1 for r in results if r.get("static"))
